@@ -269,7 +269,7 @@ def run(chk):
                 n_e = sym.arrow(P(key, "params"), "n")
                 want = sym.mul(sym.idx(P(res, "a"), j), sym.idx(P(key, "key"), j))
                 sgn = 1 if accb[0]["op"] == "+=" else -1
-                if (lp["lo"], lp["cmp"], lp["hi"]) != (ZERO, "<", n_e):
+                if not summ.visits(lp, ZERO, n_e):
                     problems.append("mask*key accumulation over [%s %s %s), the phase uses [0, key->params->n)" % (
                         sym.show(lp["lo"]), lp["cmp"], sym.show(lp["hi"])))
                 if accb[0]["val"] != want:
@@ -297,7 +297,7 @@ def run(chk):
         else:
             lp = mul[0]["loops"][0]
             i = lp["var"]
-            if (lp["lo"], lp["cmp"], lp["hi"]) != (ZERO, "<", K):
+            if not summ.visits(lp, ZERO, K):
                 problems.append("component loop [%s %s %s)" % (sym.show(lp["lo"]), lp["cmp"], sym.show(lp["hi"])))
             if mul[0]["args"] != [P(res, "b"), sym.addr(sym.idx(P(key, "key"), i)), sym.addr(sym.idx(P(res, "a"), i))]:
                 problems.append("product operands %s" % [sym.show(a) for a in mul[0]["args"]])
@@ -319,7 +319,7 @@ def run(chk):
         else:
             lp = sub[0]["loops"][0]
             i = lp["var"]
-            if (lp["lo"], lp["cmp"], lp["hi"]) != (ZERO, "<", K2):
+            if not summ.visits(lp, ZERO, K2):
                 problems.append("component loop [%s %s %s), encryption uses [0,k)" % (sym.show(lp["lo"]), lp["cmp"], sym.show(lp["hi"])))
             if sub[0]["args"] != [sym.sym(phs), sym.addr(sym.idx(P(tk, "key"), i)), sym.addr(sym.idx(P(smp, "a"), i))]:
                 problems.append("product operands %s" % [sym.show(a) for a in sub[0]["args"]])
@@ -377,7 +377,7 @@ def run(chk):
                 b_, i_ = bl["var"], il["var"]
                 K = sym.arrow(P(apar, "tlwe_params"), "k")
                 hi_b = bl["hi"] if bl["cmp"] == "<" else sym.add(bl["hi"], I(1))
-                if bl["lo"] != ZERO or hi_b != sym.add(K, I(1)) or (il["lo"], il["cmp"], il["hi"]) != (ZERO, "<", P(apar, "l")):
+                if bl["lo"] != ZERO or hi_b != sym.add(K, I(1)) or not summ.visits(il, ZERO, P(apar, "l")):
                     problems.append("ranges bloc in [%s,%s), i in [%s,%s)" % (sym.show(bl["lo"]), sym.show(hi_b), sym.show(il["lo"]), sym.show(il["hi"])))
                 row = sym.idx(sym.idx(P(ares, "bloc_sample"), b_), i_)
                 comp = sym.fld(sym.idx(sym.fld(row, "a"), b_), "coefsT")
@@ -401,7 +401,7 @@ def run(chk):
             problems.append("expected one tLwePhase in the digit loop")
         else:
             lp = phc[0]["loops"][0]
-            if (lp["lo"], lp["cmp"], lp["hi"]) != (ZERO, "<", l_):
+            if not summ.visits(lp, ZERO, l_):
                 problems.append("digit loop [%s,%s)" % (sym.show(lp["lo"]), sym.show(lp["hi"])))
             want_row = sym.addr(sym.idx(sym.idx(P(dsamp, "bloc_sample"), k_), lp["var"]))
             if phc[0]["args"][1] != want_row or phc[0]["args"][2] != sym.addr(sym.fld(sym.idx(sym.sym(dkey), ZERO), "tlwe_key")):
@@ -465,7 +465,7 @@ def run(chk):
                 problems.append("mask clearing statement not found")
             else:
                 il, jl = zero[0]["loops"]
-                if (il["lo"], il["cmp"], il["hi"]) != (ZERO, "<", K) or jl["lo"] != ZERO or jl["cmp"] != "<":
+                if not summ.visits(il, ZERO, K) or jl["lo"] != ZERO or jl["cmp"] != "<":
                     problems.append("mask cleared over i in [%s,%s)" % (sym.show(il["lo"]), sym.show(il["hi"])))
                 if zero[0]["lv"] != sym.idx(sym.fld(sym.idx(P(res, "a"), il["var"]), "coefsT"), jl["var"]) or \
                         jl["hi"] != sym.fld(sym.idx(P(res, "a"), il["var"]), "N"):
@@ -503,7 +503,7 @@ def run(chk):
         app, _ = summ.pieces(v, ap, hooks=NOINLINE)
         m_, p_, Ms, Np = [p["n"] for p in ap.params]
         st = [p for p in app if p["kind"] == "store"]
-        oka = len(st) == 1 and len(st[0]["loops"]) == 1 and (st[0]["loops"][0]["lo"], st[0]["loops"][0]["cmp"], st[0]["loops"][0]["hi"]) == (ZERO, "<", sym.sym(Np)) \
+        oka = len(st) == 1 and len(st[0]["loops"]) == 1 and summ.visits(st[0]["loops"][0], ZERO, sym.sym(Np)) \
             and st[0]["val"] == ("call", "approxPhase", (sym.idx(P(p_, "coefsT"), st[0]["loops"][0]["var"]), sym.sym(Ms))) \
             and st[0]["lv"] == sym.idx(P(m_, "coefsT"), st[0]["loops"][0]["var"])
         why_a = [summ.show_piece(p)[:100] for p in st]
@@ -511,6 +511,6 @@ def run(chk):
             oka, why_a = inline_rounding(chk, v, st[0], sym.idx(P(p_, "coefsT"), st[0]["loops"][0]["var"]), sym.sym(Ms))
             if oka:
                 lp0 = st[0]["loops"][0]
-                oka = (lp0["lo"], lp0["cmp"], lp0["hi"]) == (ZERO, "<", sym.sym(Np)) and st[0]["lv"] == sym.idx(P(m_, "coefsT"), lp0["var"])
+                oka = summ.visits(lp0, ZERO, sym.sym(Np)) and st[0]["lv"] == sym.idx(P(m_, "coefsT"), lp0["var"])
         chk.require(oka, "R6", "tLweApproxPhase rounds each of the N coefficients with the caller's Msize", where=ap.where,
                     ok="message[i] = approxPhase(phase[i], Msize), i<N", bad=why_a, variant=vn)
